@@ -236,7 +236,8 @@ Section LocalInv.
   Variable K : nat.                                  (* number of agents *)
   Variable GoodE : list (N * N) -> node -> entry -> Prop.
   Variable GoodL : route -> Prop.
-  Variable PM : list (N * N) -> msg -> Prop.
+  Variable PM : list (N * N) -> msg -> Prop.         (* ROUTE_ADVERTISE frames in flight *)
+  Variable PW : list (N * N) -> msg -> Prop.         (* ROUTE_WITHDRAW frames in flight *)
   (** side condition on the steps considered (e.g. "every AddLocal uses
       metric 0", "no Disconnect") *)
   Variable OkOp : op -> Prop.
@@ -244,15 +245,20 @@ Section LocalInv.
   Definition node_ok (ls : list (N * N)) (n : node) (ns : nstate) : Prop :=
     (forall e, In e (ns_entries ns) -> GoodE ls n e) /\ (forall r, In r (ns_locals ns) -> GoodL r).
 
+  Definition frame_ok (ls : list (N * N)) (m : msg) : Prop :=
+    (is_w (m_adv m) = false -> PM ls m) /\ (is_w (m_adv m) = true -> PW ls m).
+
   Definition linv (s : state) : Prop :=
     num_nodes s = K /\
     (forall n ns, get (st_nodes s) n = Some ns -> node_ok (st_links s) n ns) /\
-    (forall m, In m (st_flight s) -> PM (st_links s) m).
+    (forall m, In m (st_flight s) -> frame_ok (st_links s) m).
 
   Hypothesis G_mono_E : forall ls ls' n e, links_le ls ls' -> GoodE ls n e -> GoodE ls' n e.
   Hypothesis G_mono_M : forall ls ls' m, links_le ls ls' -> PM ls m -> PM ls' m.
+  Hypothesis G_mono_W : forall ls ls' m, links_le ls ls' -> PW ls m -> PW ls' m.
   Hypothesis G_disc : forall a b, OkOp (Disconnect a b) ->
-    (forall ls ls' n e, GoodE ls n e -> GoodE ls' n e) /\ (forall ls ls' m, PM ls m -> PM ls' m).
+    (forall ls ls' n e, GoodE ls n e -> GoodE ls' n e) /\ (forall ls ls' m, PM ls m -> PM ls' m) /\
+    (forall ls ls' m, PW ls m -> PW ls' m).
 
   Hypothesis G_store : forall ls from n a now r,
     (N.to_nat n < K)%nat ->
@@ -288,6 +294,20 @@ Section LocalInv.
                   e_path := []; e_seq := sq; e_upd := now; e_base := metric mod two16 |} /\
     GoodL {| r_kind := k; r_id := id; r_metric := metric mod two16; r_base := metric mod two16 |}.
 
+  (** a withdrawal as its origin sends it, and as an agent forwards it *)
+  Hypothesis W_orig : forall ls n lcs sq p,
+    (N.to_nat n < K)%nat -> (N.to_nat p < K)%nat -> linked ls n p = true ->
+    (forall r, In r lcs -> GoodL r) ->
+    PW ls {| m_from := n; m_to := p;
+             m_adv := {| a_origin := n; a_seq := sq; a_routes := filter is_cidr_route lcs;
+                         a_path := []; a_seenby := [n] |} |}.
+
+  Hypothesis W_fwd : forall ls from n a p,
+    (N.to_nat n < K)%nat -> (N.to_nat p < K)%nat -> linked ls n p = true ->
+    PW ls {| m_from := from; m_to := n; m_adv := a |} ->
+    memN n (a_seenby a) = false -> p <> from -> memN p (a_seenby a ++ [n]) = false ->
+    PW ls {| m_from := n; m_to := p; m_adv := forward_w n a |}.
+
   Lemma linv_init : linv (init K).
   Proof.
     split; [|split].
@@ -302,6 +322,12 @@ Section LocalInv.
     destruct (existsb (gkey_eqb h) t); auto. destruct H; auto.
   Qed.
 
+  Lemma frame_ok_adv : forall ls m, is_w (m_adv m) = false -> PM ls m -> frame_ok ls m.
+  Proof. intros ls m H P. split; auto. congruence. Qed.
+
+  Lemma frame_ok_w : forall ls m, is_w (m_adv m) = true -> PW ls m -> frame_ok ls m.
+  Proof. intros ls m H P. split; auto. congruence. Qed.
+
   Lemma set_node_linv : forall s n ns ns',
     linv s -> get (st_nodes s) n = Some ns ->
     (node_ok (st_links s) n ns -> node_ok (st_links s) n ns') ->
@@ -315,7 +341,7 @@ Section LocalInv.
   Lemma handle_linv : forall s self from a s' out res,
     linv s -> PM (st_links s) {| m_from := from; m_to := self; m_adv := a |} ->
     handle cf s self from a = (s', out, res) ->
-    linv s' /\ st_links s' = st_links s /\ (forall m, In m out -> PM (st_links s) m).
+    linv s' /\ st_links s' = st_links s /\ (forall m, In m out -> frame_ok (st_links s) m).
   Proof.
     intros s self from a s' out res Hinv Hm H. unfold handle in H.
     destruct (get (st_nodes s) self) as [ns|] eqn:G.
@@ -347,13 +373,44 @@ Section LocalInv.
     intros m Hin. apply in_map_iff in Hin. destruct Hin as [p [Hp Hin]]. subst.
     apply In_flood_targets in Hin. destruct Hin as [Hnb [Hpf Hps]].
     apply In_neighbours in Hnb. destruct Hnb as [Hl Hlt].
-    simpl in Hps. eapply G_fwd; eauto.
+    simpl in Hps. apply frame_ok_adv; [reflexivity|]. eapply G_fwd; eauto.
     destruct Hinv as [HK _]. rewrite <- HK. auto.
+  Qed.
+
+  Lemma handle_w_linv : forall s self from a s' out res,
+    linv s -> PW (st_links s) {| m_from := from; m_to := self; m_adv := a |} -> is_w a = true ->
+    handle_w s self from a = (s', out, res) ->
+    linv s' /\ st_links s' = st_links s /\ (forall m, In m out -> frame_ok (st_links s) m).
+  Proof.
+    intros s self from a s' out res Hinv Hm Hw H. unfold handle_w in H.
+    destruct (get (st_nodes s) self) as [ns|] eqn:G.
+    2:{ inversion H; subst. split; [auto|split; [auto|simpl; tauto]]. }
+    assert (HselfK : (N.to_nat self < K)%nat).
+    { destruct Hinv as [HK _]. rewrite <- HK. eapply get_Some_lt; eauto. }
+    assert (Hns : node_ok (st_links s) self ns) by (eapply Hinv; eauto).
+    destruct (seen_has (a_origin a) (a_seq a) (ns_seen ns)).
+    { inversion H; subst; clear H. split; [auto|split; [auto|simpl; tauto]]. }
+    assert (Keep : forall es, (forall e, In e es -> GoodE (st_links s) self e) ->
+              linv {| st_nodes := set (st_nodes s) self
+                        {| ns_seq := ns_seq ns; ns_entries := es;
+                           ns_seen := ns_seen ns ++ [{| s_origin := a_origin a; s_seq := a_seq a; s_at := st_now s; s_from := from |}];
+                           ns_locals := ns_locals ns |};
+                      st_links := st_links s; st_flight := st_flight s; st_now := st_now s |}).
+    { intros es Hes. eapply set_node_linv; eauto; intros [H1 H2]; split; simpl; auto. }
+    destruct (memN self (a_seenby a)) eqn:Msb.
+    { inversion H; subst; clear H. split; [|split; [auto|simpl; tauto]]. apply Keep. apply Hns. }
+    inversion H; subst; clear H. split; [|split; [auto|]].
+    - apply Keep. intros e He. apply filter_In in He. apply Hns. tauto.
+    - intros m Hin. apply in_map_iff in Hin. destruct Hin as [p [Hp Hin]]. subst.
+      apply In_flood_targets in Hin. destruct Hin as [Hnb [Hpf Hps]].
+      apply In_neighbours in Hnb. destruct Hnb as [Hl Hlt].
+      simpl in Hps. apply frame_ok_w; [reflexivity|]. eapply W_fwd; eauto.
+      destruct Hinv as [HK _]. rewrite <- HK. auto.
   Qed.
 
   Lemma announce_linv : forall s n s' out,
     linv s -> announce s n = (s', out) ->
-    linv s' /\ st_links s' = st_links s /\ (forall m, In m out -> PM (st_links s) m).
+    linv s' /\ st_links s' = st_links s /\ (forall m, In m out -> frame_ok (st_links s) m).
   Proof.
     intros s n s' out Hinv H. unfold announce in H.
     destruct (get (st_nodes s) n) as [ns|] eqn:G.
@@ -365,13 +422,34 @@ Section LocalInv.
     - eapply set_node_linv; eauto; intros [H1 H2]; split; simpl; auto.
     - intros m Hin. apply in_map_iff in Hin. destruct Hin as [p [Hp Hin]]. subst.
       apply In_neighbours in Hin. destruct Hin as [Hl Hlt].
+      apply frame_ok_adv; [reflexivity|].
       apply G_ann; auto. + destruct Hinv as [HK _]. rewrite <- HK. auto. + apply Hns.
+  Qed.
+
+  Lemma withdraw_linv : forall s n s' out,
+    linv s -> withdraw s n = (s', out) ->
+    linv s' /\ st_links s' = st_links s /\ (forall m, In m out -> frame_ok (st_links s) m).
+  Proof.
+    intros s n s' out Hinv H. unfold withdraw in H.
+    destruct (get (st_nodes s) n) as [ns|] eqn:G.
+    2:{ inversion H; subst. split; [auto|split; [auto|simpl; tauto]]. }
+    assert (Hns : node_ok (st_links s) n ns) by (eapply Hinv; eauto).
+    assert (HnK : (N.to_nat n < K)%nat).
+    { destruct Hinv as [HK _]. rewrite <- HK. eapply get_Some_lt; eauto. }
+    destruct (filter is_cidr_route (ns_locals ns)) as [|r0 rs] eqn:F.
+    { inversion H; subst. split; [auto|split; [auto|simpl; tauto]]. }
+    inversion H; subst; clear H. split; [|split; [auto|]].
+    - eapply set_node_linv; eauto; intros [H1 H2]; split; simpl; auto.
+    - intros m Hin. apply in_map_iff in Hin. destruct Hin as [p [Hp Hin]]. subst.
+      apply In_neighbours in Hin. destruct Hin as [Hl Hlt].
+      apply frame_ok_w; [reflexivity|]. rewrite <- F.
+      apply W_orig; auto. + destruct Hinv as [HK _]. rewrite <- HK. auto. + apply Hns.
   Qed.
 
   Lemma replay_linv : forall s self peer s' out,
     linv s -> (N.to_nat peer < K)%nat -> linked (st_links s) self peer = true ->
     replay cf s self peer = (s', out) ->
-    linv s' /\ st_links s' = st_links s /\ (forall m, In m out -> PM (st_links s) m).
+    linv s' /\ st_links s' = st_links s /\ (forall m, In m out -> frame_ok (st_links s) m).
   Proof.
     intros s self peer s' out Hinv HpK Hl H. unfold replay in H.
     destruct (get (st_nodes s) self) as [ns|] eqn:G.
@@ -384,9 +462,11 @@ Section LocalInv.
     - intros m Hin. apply in_map_iff in Hin. destruct Hin as [adv [Hp Hadv]]. subst.
       apply In_sort_by in Hadv. apply in_flat_map in Hadv. destruct Hadv as [k [Hk Hadv]].
       unfold replay_keys in Hk. apply filter_In in Hk. destruct Hk as [Hk _]. apply In_dedup_keys in Hk.
-      eapply G_replay; eauto.
-      intros e He. apply filter_In in He. destruct He as [He Hnh]. split; [apply Hns; auto|].
-      apply negb_true_iff in Hnh. apply N.eqb_neq in Hnh. auto.
+      apply frame_ok_adv.
+      + destruct k as [[o sq] p]. apply In_replay_group in Hadv. destruct Hadv as [_ [_ Hadv]]. subst. reflexivity.
+      + eapply G_replay; eauto.
+        intros e He. apply filter_In in He. destruct He as [He Hnh]. split; [apply Hns; auto|].
+        apply negb_true_iff in Hnh. apply N.eqb_neq in Hnh. auto.
   Qed.
 
   Lemma update_node_linv : forall s n f,
@@ -400,8 +480,11 @@ Section LocalInv.
   Qed.
 
   Lemma linv_flight : forall s f,
-    linv s -> (forall m, In m f -> PM (st_links s) m) -> linv (with_flight s f).
+    linv s -> (forall m, In m f -> frame_ok (st_links s) m) -> linv (with_flight s f).
   Proof. intros s f [HK [HN HF]] H. split; [|split]; simpl; auto. Qed.
+
+  Lemma frame_ok_mono : forall ls ls' m, links_le ls ls' -> frame_ok ls m -> frame_ok ls' m.
+  Proof. intros ls ls' m Hle [A B]. split; intros H; [eapply G_mono_M|eapply G_mono_W]; eauto. Qed.
 
   Lemma linv_links : forall s ls',
     linv s -> links_le (st_links s) ls' ->
@@ -409,28 +492,38 @@ Section LocalInv.
   Proof.
     intros s ls' [HK [HN HF]] Hle. split; [|split]; simpl; auto.
     - intros n ns G. destruct (HN _ _ G) as [H1 H2]. split; auto. intros e He. eapply G_mono_E; eauto.
-    - intros m Hm. eapply G_mono_M; eauto.
+    - intros m Hm. eapply frame_ok_mono; eauto.
   Qed.
 
   Theorem step_linv : forall s o, OkOp o -> linv s -> linv (fst (fst (step cf s o))).
   Proof.
-    intros s o Hok Hinv. destruct o as [n|i dup|n o sq|d|a b|a b|n k id metric|n maxage]; simpl.
+    intros s o Hok Hinv. destruct o as [n|n|i dup|n o sq|d|a b|a b|n k id metric|n maxage]; simpl.
     - (* Announce *)
       destruct (announce s n) as [s' out] eqn:E. simpl.
       destruct (announce_linv _ _ _ _ Hinv E) as [H1 [HL H2]].
       apply linv_flight; auto. rewrite HL. intros m Hm. apply in_app_or in Hm. destruct Hm; auto.
       rewrite <- HL. apply H1; auto.
+    - (* Withdraw *)
+      destruct (withdraw s n) as [s' out] eqn:E. simpl.
+      destruct (withdraw_linv _ _ _ _ Hinv E) as [H1 [HL H2]].
+      apply linv_flight; auto. rewrite HL. intros m Hm. apply in_app_or in Hm. destruct Hm; auto.
+      rewrite <- HL. apply H1; auto.
     - (* Deliver *)
       destruct (nth_error (st_flight s) i) as [m|] eqn:Nth; simpl; auto.
-      destruct (handle cf (with_flight s (if dup then st_flight s else remove_nth (st_flight s) i))
-                       (m_to m) (m_from m) (m_adv m)) as [[s2 out] res] eqn:E. simpl.
-      assert (Hpm : PM (st_links s) m). { apply Hinv. eapply nth_error_In; eauto. }
-      assert (Hinv1 : linv (with_flight s (if dup then st_flight s else remove_nth (st_flight s) i))).
+      set (s1 := with_flight s (if dup then st_flight s else remove_nth (st_flight s) i)).
+      assert (Hfr : frame_ok (st_links s) m). { apply Hinv. eapply nth_error_In; eauto. }
+      assert (Hinv1 : linv s1).
       { apply linv_flight; auto. intros x Hx. apply Hinv. destruct dup; auto. eapply In_remove_nth; eauto. }
-      destruct m as [mf mt ma]. simpl in *.
-      destruct (handle_linv _ _ _ _ _ _ _ Hinv1 Hpm E) as [H1 [HL H2]]. simpl in HL, H2.
-      apply linv_flight; auto. rewrite HL. intros x Hx. apply in_app_or in Hx. destruct Hx; auto.
-      rewrite <- HL. apply H1; auto.
+      destruct m as [mf mt ma]. simpl in *. destruct Hfr as [FA FW].
+      destruct (is_w ma) eqn:Wm.
+      + destruct (handle_w s1 mt mf ma) as [[s2 out] res] eqn:E. simpl.
+        destruct (handle_w_linv _ _ _ _ _ _ _ Hinv1 (FW Wm) Wm E) as [H1 [HL H2]]. simpl in HL, H2.
+        apply linv_flight; auto. rewrite HL. intros x Hx. apply in_app_or in Hx. destruct Hx; auto.
+        rewrite <- HL. apply H1; auto.
+      + destruct (handle cf s1 mt mf ma) as [[s2 out] res] eqn:E. simpl.
+        destruct (handle_linv _ _ _ _ _ _ _ Hinv1 (FA Wm) E) as [H1 [HL H2]]. simpl in HL, H2.
+        apply linv_flight; auto. rewrite HL. intros x Hx. apply in_app_or in Hx. destruct Hx; auto.
+        rewrite <- HL. apply H1; auto.
     - (* Forget *)
       apply update_node_linv; auto; intros ns _ [H1 H2]; split; simpl; auto.
     - (* Advance *)
@@ -463,11 +556,12 @@ Section LocalInv.
       apply in_app_or in Hx. destruct Hx; auto. rewrite HL2. auto.
     - (* Disconnect *)
       destruct (valid_node s a && valid_node s b && negb (a =? b) && linked (st_links s) a b); simpl; auto.
-      destruct (G_disc _ _ Hok) as [DE DM].
+      destruct (G_disc _ _ Hok) as [DE [DM DW]].
       apply update_node_linv; [apply update_node_linv|].
       + destruct Hinv as [HK [HN HF]]. split; [|split]; simpl; auto.
         * intros n ns G. destruct (HN _ _ G) as [H1 H2]. split; auto. intros e He. eapply DE; eauto.
-        * intros m Hm. apply filter_In in Hm. eapply DM. apply HF. tauto.
+        * intros m Hm. apply filter_In in Hm. destruct (HF m (proj1 Hm)) as [A B].
+          split; intros H; [eapply DM|eapply DW]; eauto.
       + intros ns _ [H1 H2]. split; simpl; auto. intros e He. apply filter_In in He. apply H1. tauto.
       + intros ns _ [H1 H2]. split; simpl; auto. intros e He. apply filter_In in He. apply H1. tauto.
     - (* AddLocal *)
@@ -487,16 +581,17 @@ Section LocalInv.
     apply IH; auto. apply step_linv; auto.
   Qed.
 
-  (** every frame sent by a step satisfies PM as well *)
+  (** every frame sent by a step satisfies its predicate as well *)
   Theorem step_sent : forall s o m, OkOp o -> linv s ->
-    In m (snd (fst (step cf s o))) -> PM (st_links (fst (fst (step cf s o)))) m.
+    In m (snd (fst (step cf s o))) -> frame_ok (st_links (fst (fst (step cf s o)))) m.
   Proof.
     intros s o m Hok Hinv Hin.
     assert (Hs := step_linv s o Hok Hinv).
-    destruct o as [n|i dup|n o sq|d|a b|a b|n k id metric|n maxage]; simpl in *.
+    destruct o as [n|n|i dup|n o sq|d|a b|a b|n k id metric|n maxage]; simpl in *.
     - destruct (announce s n) as [s' out] eqn:E. simpl in *. apply Hs. simpl. apply in_or_app. auto.
+    - destruct (withdraw s n) as [s' out] eqn:E. simpl in *. apply Hs. simpl. apply in_or_app. auto.
     - destruct (nth_error (st_flight s) i) as [m0|]; simpl in *; [|tauto].
-      destruct (handle cf _ (m_to m0) (m_from m0) (m_adv m0)) as [[s2 out] res]. simpl in *.
+      destruct (if is_w (m_adv m0) then _ else _) as [[s2 out] res]. simpl in *.
       apply Hs. simpl. apply in_or_app. auto.
     - tauto.
     - destruct (st_now s <? _); simpl in *; tauto.
@@ -516,9 +611,10 @@ Section Simple.
   Variable GoodE : node -> entry -> Prop.
   Variable GoodL : route -> Prop.
   Variable PM : msg -> Prop.
+  Variable PW : msg -> Prop.
   Variable OkOp : op -> Prop.
 
-  Definition sinv := linv K (fun _ => GoodE) GoodL (fun _ => PM).
+  Definition sinv := linv K (fun _ => GoodE) GoodL (fun _ => PM) (fun _ => PW).
 
   Hypothesis G_store : forall from n a now r,
     (N.to_nat n < K)%nat ->
@@ -549,17 +645,32 @@ Section Simple.
     GoodE n {| e_kind := k; e_id := id; e_origin := n; e_nexthop := n; e_metric := metric mod two16;
                e_path := []; e_seq := sq; e_upd := now; e_base := metric mod two16 |} /\
     GoodL {| r_kind := k; r_id := id; r_metric := metric mod two16; r_base := metric mod two16 |}.
+  Hypothesis W_orig : forall n lcs sq p,
+    (N.to_nat n < K)%nat -> (N.to_nat p < K)%nat ->
+    (forall r, In r lcs -> GoodL r) ->
+    PW {| m_from := n; m_to := p;
+          m_adv := {| a_origin := n; a_seq := sq; a_routes := filter is_cidr_route lcs;
+                      a_path := []; a_seenby := [n] |} |}.
+  Hypothesis W_fwd : forall from n a p,
+    (N.to_nat n < K)%nat -> (N.to_nat p < K)%nat ->
+    PW {| m_from := from; m_to := n; m_adv := a |} ->
+    memN n (a_seenby a) = false -> p <> from -> memN p (a_seenby a ++ [n]) = false ->
+    PW {| m_from := n; m_to := p; m_adv := forward_w n a |}.
 
   Let GE := fun (_ : list (N * N)) => GoodE.
   Let GM := fun (_ : list (N * N)) => PM.
+  Let GW := fun (_ : list (N * N)) => PW.
 
   Lemma S_mono_E : forall ls ls' n e, links_le ls ls' -> GE ls n e -> GE ls' n e.
   Proof. unfold GE; auto. Qed.
   Lemma S_mono_M : forall ls ls' m, links_le ls ls' -> GM ls m -> GM ls' m.
   Proof. unfold GM; auto. Qed.
+  Lemma S_mono_W : forall ls ls' m, links_le ls ls' -> GW ls m -> GW ls' m.
+  Proof. unfold GW; auto. Qed.
   Lemma S_disc : forall a b, OkOp (Disconnect a b) ->
-    (forall ls ls' n e, GE ls n e -> GE ls' n e) /\ (forall ls ls' m, GM ls m -> GM ls' m).
-  Proof. unfold GE, GM; intros; split; auto. Qed.
+    (forall ls ls' n e, GE ls n e -> GE ls' n e) /\ (forall ls ls' m, GM ls m -> GM ls' m) /\
+    (forall ls ls' m, GW ls m -> GW ls' m).
+  Proof. unfold GE, GM, GW; intros; repeat split; auto. Qed.
   Lemma S_store : forall (ls : list (N * N)) from n a now r,
     (N.to_nat n < K)%nat -> GM ls {| m_from := from; m_to := n; m_adv := a |} ->
     memN n (a_seenby a) = false -> over_limit (limit_of cf n) (lenN (a_path a)) = false ->
@@ -595,19 +706,33 @@ Section Simple.
                   e_path := []; e_seq := sq; e_upd := now; e_base := metric mod two16 |} /\
     GoodL {| r_kind := k; r_id := id; r_metric := metric mod two16; r_base := metric mod two16 |}.
   Proof. unfold GE; intros; apply G_local; auto. Qed.
+  Lemma S_worig : forall (ls : list (N * N)) n lcs sq p,
+    (N.to_nat n < K)%nat -> (N.to_nat p < K)%nat -> linked ls n p = true ->
+    (forall r, In r lcs -> GoodL r) ->
+    GW ls {| m_from := n; m_to := p;
+             m_adv := {| a_origin := n; a_seq := sq; a_routes := filter is_cidr_route lcs;
+                         a_path := []; a_seenby := [n] |} |}.
+  Proof. unfold GW; intros; eapply W_orig; eauto. Qed.
+  Lemma S_wfwd : forall (ls : list (N * N)) from n a p,
+    (N.to_nat n < K)%nat -> (N.to_nat p < K)%nat -> linked ls n p = true ->
+    GW ls {| m_from := from; m_to := n; m_adv := a |} ->
+    memN n (a_seenby a) = false -> p <> from -> memN p (a_seenby a ++ [n]) = false ->
+    GW ls {| m_from := n; m_to := p; m_adv := forward_w n a |}.
+  Proof. unfold GW; intros; eapply W_fwd; eauto. Qed.
 
   Theorem run_sinv : forall ops, Forall OkOp ops -> sinv (run cf (init K) ops).
   Proof.
     intros ops Hok.
-    exact (run_linv cf K GE GoodL GM OkOp S_mono_E S_mono_M S_disc S_store S_fwd S_ann S_replay S_local
-             ops (init K) Hok (linv_init K GE GoodL GM)).
+    exact (run_linv cf K GE GoodL GM GW OkOp S_mono_E S_mono_M S_mono_W S_disc S_store S_fwd S_ann S_replay S_local
+             S_worig S_wfwd ops (init K) Hok (linv_init K GE GoodL GM GW)).
   Qed.
 
   Theorem step_ssent : forall ops o m, Forall OkOp ops -> OkOp o ->
-    In m (snd (fst (step cf (run cf (init K) ops) o))) -> PM m.
+    In m (snd (fst (step cf (run cf (init K) ops) o))) ->
+    (is_w (m_adv m) = false -> PM m) /\ (is_w (m_adv m) = true -> PW m).
   Proof.
     intros ops o m Hok Ho Hin.
-    exact (step_sent cf K GE GoodL GM OkOp S_mono_E S_mono_M S_disc S_store S_fwd S_ann S_replay S_local
-             (run cf (init K) ops) o m Ho (run_sinv ops Hok) Hin).
+    exact (step_sent cf K GE GoodL GM GW OkOp S_mono_E S_mono_M S_mono_W S_disc S_store S_fwd S_ann S_replay S_local
+             S_worig S_wfwd (run cf (init K) ops) o m Ho (run_sinv ops Hok) Hin).
   Qed.
 End Simple.
